@@ -263,6 +263,8 @@ struct Targeted {
     name: &'static str,
     /// written into an Initial packet of the attacker instead of into a 1-RTT packet
     handshake_space: bool,
+    /// no frames at all: set these (reserved) bits in the first byte of the packet header
+    header_or: u8,
     frames: Vec<u8>,
     /// admissible transport error codes on the victim
     codes: Vec<u64>,
@@ -286,50 +288,50 @@ fn targeted_cases(victim_is_server: bool, victim_max_bidi: u64, attacker_cid_len
     put_var(&mut f, victim_uni0);
     put_var(&mut f, 1);
     f.push(b'x');
-    c.push(Targeted { handshake_space: false, name: "stream-on-send-only", frames: f.clone(), codes: vec![STREAM_STATE_ERROR] });
+    c.push(Targeted { handshake_space: false, header_or: 0, name: "stream-on-send-only", frames: f.clone(), codes: vec![STREAM_STATE_ERROR] });
     // STREAM beyond the advertised stream count
     f.clear();
     f.push(0x0a);
     put_var(&mut f, attacker_bidi(victim_max_bidi + 5));
     put_var(&mut f, 1);
     f.push(b'x');
-    c.push(Targeted { handshake_space: false, name: "stream-beyond-stream-limit", frames: f.clone(), codes: vec![STREAM_LIMIT_ERROR] });
+    c.push(Targeted { handshake_space: false, header_or: 0, name: "stream-beyond-stream-limit", frames: f.clone(), codes: vec![STREAM_LIMIT_ERROR] });
     // MAX_STREAM_DATA on a receive-only stream (client-initiated uni, as seen by the server)
     f.clear();
     f.push(0x11);
     put_var(&mut f, attacker_uni0);
     put_var(&mut f, 1000);
-    c.push(Targeted { handshake_space: false, name: "max-stream-data-on-recv-only", frames: f.clone(), codes: vec![STREAM_STATE_ERROR] });
+    c.push(Targeted { handshake_space: false, header_or: 0, name: "max-stream-data-on-recv-only", frames: f.clone(), codes: vec![STREAM_STATE_ERROR] });
     // STOP_SENDING on a receive-only stream
     f.clear();
     f.push(0x05);
     put_var(&mut f, attacker_uni0);
     put_var(&mut f, 1);
-    c.push(Targeted { handshake_space: false, name: "stop-sending-on-recv-only", frames: f.clone(), codes: vec![STREAM_STATE_ERROR] });
+    c.push(Targeted { handshake_space: false, header_or: 0, name: "stop-sending-on-recv-only", frames: f.clone(), codes: vec![STREAM_STATE_ERROR] });
     // RESET_STREAM on a send-only stream
     f.clear();
     f.push(0x04);
     put_var(&mut f, victim_uni0);
     put_var(&mut f, 1);
     put_var(&mut f, 0);
-    c.push(Targeted { handshake_space: false, name: "reset-on-send-only", frames: f.clone(), codes: vec![STREAM_STATE_ERROR] });
+    c.push(Targeted { handshake_space: false, header_or: 0, name: "reset-on-send-only", frames: f.clone(), codes: vec![STREAM_STATE_ERROR] });
     // MAX_STREAMS above 2^60
     f.clear();
     f.push(0x12);
     put_var(&mut f, (1 << 60) + 1);
-    c.push(Targeted { handshake_space: false, name: "max-streams-too-large", frames: f.clone(), codes: vec![FRAME_ENCODING_ERROR, STREAM_LIMIT_ERROR] });
+    c.push(Targeted { handshake_space: false, header_or: 0, name: "max-streams-too-large", frames: f.clone(), codes: vec![FRAME_ENCODING_ERROR, STREAM_LIMIT_ERROR] });
     // unknown frame type
     f.clear();
     put_var(&mut f, 0x40);
-    c.push(Targeted { handshake_space: false, name: "unknown-frame-type", frames: f.clone(), codes: vec![FRAME_ENCODING_ERROR] });
+    c.push(Targeted { handshake_space: false, header_or: 0, name: "unknown-frame-type", frames: f.clone(), codes: vec![FRAME_ENCODING_ERROR] });
     if vs {
         // HANDSHAKE_DONE from a client
-        c.push(Targeted { handshake_space: false, name: "handshake-done-from-client", frames: vec![0x1e], codes: vec![PROTOCOL_VIOLATION] });
+        c.push(Targeted { handshake_space: false, header_or: 0, name: "handshake-done-from-client", frames: vec![0x1e], codes: vec![PROTOCOL_VIOLATION] });
         // NEW_TOKEN from a client
-        c.push(Targeted { handshake_space: false, name: "new-token-from-client", frames: vec![0x07, 0x02, 1, 2], codes: vec![PROTOCOL_VIOLATION] });
+        c.push(Targeted { handshake_space: false, header_or: 0, name: "new-token-from-client", frames: vec![0x07, 0x02, 1, 2], codes: vec![PROTOCOL_VIOLATION] });
     } else {
         // NEW_TOKEN with an empty token (§19.7)
-        c.push(Targeted { handshake_space: false, name: "new-token-empty", frames: vec![0x07, 0x00], codes: vec![FRAME_ENCODING_ERROR] });
+        c.push(Targeted { handshake_space: false, header_or: 0, name: "new-token-empty", frames: vec![0x07, 0x00], codes: vec![FRAME_ENCODING_ERROR] });
     }
     // ACK of a packet that was never sent
     f.clear();
@@ -338,7 +340,7 @@ fn targeted_cases(victim_is_server: bool, victim_max_bidi: u64, attacker_cid_len
     put_var(&mut f, 0);
     put_var(&mut f, 0);
     put_var(&mut f, 0);
-    c.push(Targeted { handshake_space: false, name: "ack-of-unsent-packet", frames: f.clone(), codes: vec![PROTOCOL_VIOLATION] });
+    c.push(Targeted { handshake_space: false, header_or: 0, name: "ack-of-unsent-packet", frames: f.clone(), codes: vec![PROTOCOL_VIOLATION] });
     // ACK whose second range would end one / two below packet number zero
     for (name, gap) in [("ack-range-one-below-zero", 0u64), ("ack-range-two-below-zero", 1u64)] {
         f.clear();
@@ -349,13 +351,13 @@ fn targeted_cases(victim_is_server: bool, victim_max_bidi: u64, attacker_cid_len
         put_var(&mut f, 0); // first range: just packet 1
         put_var(&mut f, gap);
         put_var(&mut f, 0);
-        c.push(Targeted { handshake_space: false, name, frames: f.clone(), codes: vec![FRAME_ENCODING_ERROR] });
+        c.push(Targeted { handshake_space: false, header_or: 0, name, frames: f.clone(), codes: vec![FRAME_ENCODING_ERROR] });
     }
     // RETIRE_CONNECTION_ID for a sequence number never issued
     f.clear();
     f.push(0x19);
     put_var(&mut f, 1 << 30);
-    c.push(Targeted { handshake_space: false, name: "retire-unissued-cid", frames: f.clone(), codes: vec![PROTOCOL_VIOLATION] });
+    c.push(Targeted { handshake_space: false, header_or: 0, name: "retire-unissued-cid", frames: f.clone(), codes: vec![PROTOCOL_VIOLATION] });
     // NEW_CONNECTION_ID with retire_prior_to > sequence
     f.clear();
     f.push(0x18);
@@ -364,7 +366,7 @@ fn targeted_cases(victim_is_server: bool, victim_max_bidi: u64, attacker_cid_len
     f.push(8);
     f.extend_from_slice(&[9; 8]);
     f.extend_from_slice(&[7; 16]);
-    c.push(Targeted { handshake_space: false, name: "new-cid-retire-prior-to-above-seq", frames: f.clone(), codes: vec![FRAME_ENCODING_ERROR, PROTOCOL_VIOLATION] });
+    c.push(Targeted { handshake_space: false, header_or: 0, name: "new-cid-retire-prior-to-above-seq", frames: f.clone(), codes: vec![FRAME_ENCODING_ERROR, PROTOCOL_VIOLATION] });
     // truncated STREAM frame: length runs past the end of the packet — needs the frame to be last,
     // so it is padded *before*, not after (handled by the injector: `tail`)
     // two different final sizes
@@ -380,7 +382,7 @@ fn targeted_cases(victim_is_server: bool, victim_max_bidi: u64, attacker_cid_len
     put_var(&mut f, 20);
     put_var(&mut f, 1);
     f.push(b'b');
-    c.push(Targeted { handshake_space: false, name: "two-final-sizes", frames: f.clone(), codes: vec![FINAL_SIZE_ERROR] });
+    c.push(Targeted { handshake_space: false, header_or: 0, name: "two-final-sizes", frames: f.clone(), codes: vec![FINAL_SIZE_ERROR] });
     // frames for streams the victim would have to open itself and has not (server-initiated
     // bidirectional / unidirectional stream 50): RFC 9000 §19.8, §19.10, §19.5
     let unopened_bi = victim_bidi(50);
@@ -390,33 +392,33 @@ fn targeted_cases(victim_is_server: bool, victim_max_bidi: u64, attacker_cid_len
     put_var(&mut f, unopened_bi);
     put_var(&mut f, 1);
     f.push(b'x');
-    c.push(Targeted { handshake_space: false, name: "stream-on-unopened-local-stream", frames: f.clone(), codes: vec![STREAM_STATE_ERROR] });
+    c.push(Targeted { handshake_space: false, header_or: 0, name: "stream-on-unopened-local-stream", frames: f.clone(), codes: vec![STREAM_STATE_ERROR] });
     for (name, id) in [("max-stream-data-on-unopened-local-bidi", unopened_bi), ("max-stream-data-on-unopened-local-uni", unopened_uni)] {
         f.clear();
         f.push(0x11);
         put_var(&mut f, id);
         put_var(&mut f, 100_000);
-        c.push(Targeted { handshake_space: false, name, frames: f.clone(), codes: vec![STREAM_STATE_ERROR] });
+        c.push(Targeted { handshake_space: false, header_or: 0, name, frames: f.clone(), codes: vec![STREAM_STATE_ERROR] });
     }
     for (name, id) in [("stop-sending-on-unopened-local-bidi", unopened_bi), ("stop-sending-on-unopened-local-uni", unopened_uni)] {
         f.clear();
         f.push(0x05);
         put_var(&mut f, id);
         put_var(&mut f, 7);
-        c.push(Targeted { handshake_space: false, name, frames: f.clone(), codes: vec![STREAM_STATE_ERROR] });
+        c.push(Targeted { handshake_space: false, header_or: 0, name, frames: f.clone(), codes: vec![STREAM_STATE_ERROR] });
     }
     // STREAM_DATA_BLOCKED on a stream the victim only sends on (§19.13)
     f.clear();
     f.push(0x15);
     put_var(&mut f, victim_uni0);
     put_var(&mut f, 10);
-    c.push(Targeted { handshake_space: false, name: "stream-data-blocked-on-send-only", frames: f.clone(), codes: vec![STREAM_STATE_ERROR] });
+    c.push(Targeted { handshake_space: false, header_or: 0, name: "stream-data-blocked-on-send-only", frames: f.clone(), codes: vec![STREAM_STATE_ERROR] });
     // STREAMS_BLOCKED above 2^60 (§19.14)
     for (name, ty) in [("streams-blocked-bidi-too-large", 0x16u8), ("streams-blocked-uni-too-large", 0x17)] {
         f.clear();
         f.push(ty);
         put_var(&mut f, (1 << 60) + 1);
-        c.push(Targeted { handshake_space: false, name, frames: f.clone(), codes: vec![FRAME_ENCODING_ERROR, STREAM_LIMIT_ERROR] });
+        c.push(Targeted { handshake_space: false, header_or: 0, name, frames: f.clone(), codes: vec![FRAME_ENCODING_ERROR, STREAM_LIMIT_ERROR] });
     }
     // NEW_CONNECTION_ID with an impossible length (§19.15)
     for (name, len) in [("new-cid-length-zero", 0u8), ("new-cid-length-21", 21)] {
@@ -427,7 +429,7 @@ fn targeted_cases(victim_is_server: bool, victim_max_bidi: u64, attacker_cid_len
         f.push(len);
         f.extend_from_slice(&vec![9; len as usize]);
         f.extend_from_slice(&[7; 16]);
-        c.push(Targeted { handshake_space: false, name, frames: f.clone(), codes: vec![FRAME_ENCODING_ERROR] });
+        c.push(Targeted { handshake_space: false, header_or: 0, name, frames: f.clone(), codes: vec![FRAME_ENCODING_ERROR] });
     }
     // more connection IDs than the victim's active_connection_id_limit allows (§5.1.1) — or any
     // at all while the victim addresses the attacker with a zero-length ID (§19.15)
@@ -440,28 +442,28 @@ fn targeted_cases(victim_is_server: bool, victim_max_bidi: u64, attacker_cid_len
         f.extend_from_slice(&[0xC0 | seq as u8; 8]);
         f.extend_from_slice(&[seq as u8; 16]);
     }
-    c.push(Targeted { handshake_space: false, name: "new-cid-beyond-active-limit", frames: f.clone(), codes: vec![if attacker_cid_len == 0 { PROTOCOL_VIOLATION } else { CONNECTION_ID_LIMIT_ERROR }] });
+    c.push(Targeted { handshake_space: false, header_or: 0, name: "new-cid-beyond-active-limit", frames: f.clone(), codes: vec![if attacker_cid_len == 0 { PROTOCOL_VIOLATION } else { CONNECTION_ID_LIMIT_ERROR }] });
     // offsets past 2^62-1 (§19.6, §19.8)
     f.clear();
     f.push(0x06);
     put_var(&mut f, (1 << 62) - 1);
     put_var(&mut f, 2);
     f.extend_from_slice(b"xy");
-    c.push(Targeted { handshake_space: false, name: "crypto-offset-overflow", frames: f.clone(), codes: vec![FRAME_ENCODING_ERROR, CRYPTO_BUFFER_EXCEEDED] });
+    c.push(Targeted { handshake_space: false, header_or: 0, name: "crypto-offset-overflow", frames: f.clone(), codes: vec![FRAME_ENCODING_ERROR, CRYPTO_BUFFER_EXCEEDED] });
     f.clear();
     f.push(0x0e);
     put_var(&mut f, attacker_bidi(50));
     put_var(&mut f, (1 << 62) - 1);
     put_var(&mut f, 2);
     f.extend_from_slice(b"xy");
-    c.push(Targeted { handshake_space: false, name: "stream-offset-overflow", frames: f.clone(), codes: vec![FRAME_ENCODING_ERROR, FLOW_CONTROL_ERROR] });
+    c.push(Targeted { handshake_space: false, header_or: 0, name: "stream-offset-overflow", frames: f.clone(), codes: vec![FRAME_ENCODING_ERROR, FLOW_CONTROL_ERROR] });
     // RESET_STREAM whose final size lies beyond every limit the victim advertised (§4.5)
     f.clear();
     f.push(0x04);
     put_var(&mut f, attacker_bidi(50));
     put_var(&mut f, 1);
     put_var(&mut f, (1 << 62) - 1);
-    c.push(Targeted { handshake_space: false, name: "reset-final-size-beyond-limits", frames: f.clone(), codes: vec![FLOW_CONTROL_ERROR] });
+    c.push(Targeted { handshake_space: false, header_or: 0, name: "reset-final-size-beyond-limits", frames: f.clone(), codes: vec![FLOW_CONTROL_ERROR] });
     // frame types that Initial and Handshake packets must not carry (§12.4, Table 3)
     let hs: [(&'static str, Vec<u8>); 7] = [
         ("stream-frame-in-handshake-space", {
@@ -490,8 +492,15 @@ fn targeted_cases(victim_is_server: bool, victim_max_bidi: u64, attacker_cid_len
         ("new-token-in-handshake-space", vec![0x07, 0x02, 1, 2]),
         ("application-close-in-handshake-space", vec![0x1d, 0x07, 0x00]),
     ];
+    // reserved header bits (§17.2, §17.3.1): checked after removing header protection
+    for (name, mask) in [("reserved-bits-short-header-0x08", 0x08u8), ("reserved-bits-short-header-0x10", 0x10), ("reserved-bits-short-header-0x18", 0x18)] {
+        c.push(Targeted { handshake_space: false, header_or: mask, name, frames: Vec::new(), codes: vec![PROTOCOL_VIOLATION] });
+    }
+    for (name, mask) in [("reserved-bits-long-header-0x04", 0x04u8), ("reserved-bits-long-header-0x08", 0x08), ("reserved-bits-long-header-0x0c", 0x0c)] {
+        c.push(Targeted { handshake_space: true, header_or: mask, name, frames: Vec::new(), codes: vec![PROTOCOL_VIOLATION] });
+    }
     for (name, frames) in hs {
-        c.push(Targeted { handshake_space: true, name, frames, codes: vec![PROTOCOL_VIOLATION] });
+        c.push(Targeted { handshake_space: true, header_or: 0, name, frames, codes: vec![PROTOCOL_VIOLATION] });
     }
     c
 }
@@ -529,7 +538,11 @@ impl C03Scen {
         // contents of its Initial packet instead (the victim must reject that packet whatever
         // else the datagram holds)
         let overlay = !self.hostile_server;
-        self.inject(w, Space::Initial, t.frames, overlay);
+        if t.header_or != 0 {
+            w.tap.lock().unwrap().header_or.insert((self.attacker_inc, Space::Initial), t.header_or);
+        } else {
+            self.inject(w, Space::Initial, t.frames, overlay);
+        }
         self.targeted_sent_at = Some(w.now);
         w.faults.hit("inject_targeted_handshake_space");
         self.attacks = 1000;
@@ -584,7 +597,11 @@ impl C03Scen {
             1 => {
                 if self.attacker_ready(w) && self.targeted_sent_at.is_none() && self.b.wl.sides.get(&self.victim_inc).is_some_and(|s| s.connected) {
                     let t = self.targeted.clone().unwrap();
-                    self.inject(w, Space::OneRtt, t.frames, false);
+                    if t.header_or != 0 {
+                        w.tap.lock().unwrap().header_or.insert((self.attacker_inc, Space::OneRtt), t.header_or);
+                    } else {
+                        self.inject(w, Space::OneRtt, t.frames, false);
+                    }
                     w.conn_mut(self.attacker_inc).ping();
                     self.targeted_sent_at = Some(w.now);
                     w.faults.hit("inject_targeted");
@@ -780,6 +797,11 @@ impl Scenario for C03Scen {
                 }
             } else {
                 self.victim_inc = inc;
+                if self.targeted.as_ref().is_some_and(|t| t.handshake_space && t.header_or != 0) {
+                    // (an Initial with reserved bits set that would have created the connection
+                    // is dropped without a trace, which is fine: aim at the existing connection)
+                    self.inject_handshake_space_case(w);
+                }
             }
         }
     }
@@ -863,7 +885,7 @@ fn run(ch: Chooser, ctx: &RunCtx, mode: u32) -> RunOut {
         let cases = targeted_cases(!hostile_server, if hostile_server { sc.b.client_knobs.max_bidi } else { sc.b.server_knobs.max_bidi }, attacker_cid_len);
         let i = w.ch.choose("c03.targeted.case", cases.len() as u32) as usize;
         sc.targeted = Some(cases[i].clone());
-        if cases[i].handshake_space && !hostile_server {
+        if cases[i].handshake_space && !hostile_server && cases[i].header_or == 0 {
             // the attacking client's next padded Initial carries it
             sc.inject_handshake_space_case(&mut w);
         }
